@@ -22,7 +22,7 @@ Repaired (the former `_counterexample` theorems are now the positive statements;
 harness corpus under their oracle keys): a query that is not a JSON object is answered with an error response
 that echoes it (`non_object_query_echoed`; it used to be answered with the placeholder request
 `{"error":"unable to display query"}`, key `pipeline/request-not-echoed`, and `[]` with no response at all,
-key `pipeline/query-unanswered`); every query is answered (`every_query_answered`); every response carries the
+key `pipeline/query-unanswered`); every query is answered (`every_query_answered_partial`: for plugins that keep objects); every response carries the
 request it answers (`response_carries_request`).
 
 Where the code still deviates from the property (findings, each with a counterexample on the faithful model):
@@ -61,6 +61,18 @@ the r-tree matchers and the haversine load balancer, which only insert fields).
 
 Not a finding (configuration, outside the quantifier `parallelism 1..#cores`): parallelism 0 makes
 `apply_load_balancing_policy` fail the whole batch (`parallelism_zero_fails_batch`).
+
+Assumptions of the batch-level theorems, named: (1) they are stated over `runO` — the per-run configuration
+already parsed and `ResponseSink::None`; `call_is_run` extends them to any sink that can be built and whose
+writes succeed, `call_multiset` restates `run_multiset` over the model with configuration parsing and sinks, and
+with a sink whose writes fail the call is an `Err` under both policies (`failing_sink_fails_call`);
+(2) `respond` is a total pure function — everything inside `run_single_query` is outside this model;
+(3) "each response carries the request" for search-stage responses is the premise `hr` of
+`response_carries_request`, derived in `single_query_echoes_request` from a model of the packaging of
+`run_single_query` (`create_initial_output`, `package_error`, output plugins that write other keys) and checked
+on every response of the differential run (oracle key `response/request-not-echoed-by-search`);
+(4) `sched_independent` and `cache_transparent` hold by construction of the model (pure `respond`, atomic steps;
+per-step transparency as the hypothesis).
 
 Partial in this sense: real thread interleavings are only sampled by the harness; the model has atomic
 "run the next query of my bin" steps; purity of `respond` rests on Rust's aliasing rules (trusted).
@@ -145,7 +157,10 @@ example : (match balanceO natOps 4 ((List.range 12).map fun i => wq i ([1, 4, 1,
 
 /-! ## the batch as a multiset -/
 
-/-- **The responses of a batch.**  For every batch, every plugin list, every parallelism `≥ 1` (configured or
+/-- **The responses of a batch.**  (`runO`: the per-run configuration already parsed, `ResponseSink::None` — or,
+by `call_is_run`, any sink that can be built and whose writes succeed; with a sink whose writes fail the call is
+an `Err` under both policies, `failing_sink_fails_call`; `call_multiset` is this theorem over the model with
+configuration parsing and sinks.)  For every batch, every plugin list, every parallelism `≥ 1` (configured or
 per run), every weight arithmetic: `run` returns — never an `Err`, never a panic — a list that is a permutation
 of the per-query answers `⨄_q answer q` (the answers to the expanded queries of `q`, or `q`'s error response);
 under the discard policy exactly the input-stage error responses. -/
@@ -285,9 +300,11 @@ theorem expansion_nonempty (plugins : List Plugin) (hw : ∀ p ∈ plugins, ObjO
     subst h
     exact ⟨hne, hall⟩
 
-/-- **Every query is answered**: whatever JSON value is offered as a query, it gets at least one response
+/-- **Every query is answered** (`_partial`: hypothesis `hw`, every plugin maps an object to an object or a
+non-empty array of objects — false of a plugin that answers `[]`, `C12.table_plugin_can_erase_a_query_counterexample`):
+whatever JSON value is offered as a query, it gets at least one response
 (its expanded queries' responses, or one error response) -/
-theorem every_query_answered (plugins : List Plugin) (hw : ∀ p ∈ plugins, ObjOp (processT p))
+theorem every_query_answered_partial (plugins : List Plugin) (hw : ∀ p ∈ plugins, ObjOp (processT p))
     (respond : Json → Json) (q : Json) : answer plugins respond q ≠ [] := by
   unfold answer
   cases h : prepT plugins q with
@@ -344,10 +361,33 @@ theorem error_echoes_request (plugins : List Plugin) (q e : Json) (h : prepT plu
         refine ⟨pre, p, post, xs, x, pe', _, rfl, h2, h3, h4, h.symm, ?_⟩
         by_cases hn : GridSearch.isNoRequest (pe'.left.getD x) = true <;> simp [hn]
 
-/-- **Each response carries the request it answers**, provided the single-query function echoes its argument
-(which `run_single_query` does: `create_initial_output` / `package_error` put `request_json` under
-`request`): a response is the answer to an expanded query `e` and carries `e`, or it is the error response
-characterised by `error_echoes_request` -/
+/-- **The search-stage responses carry their request — from the packaging of `run_single_query`**:
+`create_initial_output` puts the request under `request` (a failed search: `package_error(request, e)`), every
+output plugin either fails — `package_error(request, e)` again — or returns the next output, and the response
+carries the request provided no output plugin removes or replaces the `request` field (`KeepsRequest`; writing
+any other key does: `output_plugin_writing_another_key_keeps_request` — which is all the summary, traversal and
+uuid plugins do).  This discharges the premise `hr` of `response_carries_request` for the modelled packaging;
+that the real plugins only write other keys is read off the code and checked on every response of the
+differential run (oracle key `response/request-not-echoed-by-search`). -/
+theorem single_query_echoes_request (search : Json → Option String)
+    (outPlugins : List (Json → Json → Except String Json)) (hk : ∀ p ∈ outPlugins, KeepsRequest p)
+    (q : Json) : (singleQuery search outPlugins q).get? "request" = some q := by
+  unfold singleQuery
+  cases search q with
+  | some e => simp [Json.get?, Json.lookup]
+  | none => exact applyOut_request outPlugins q _ hk (by simp [Json.get?, Json.lookup])
+
+theorem output_plugin_writing_another_key_keeps_request (key : String) (hk : key ≠ "request")
+    (f : Json → Json → Json) :
+    KeepsRequest (fun q out => match out with
+      | .obj kvs => .ok (.obj (Json.insertKv kvs key (f q out)))
+      | _ => .error "output is not an object") :=
+  set_other_key_keepsRequest key hk f
+
+/-- **Each response carries the request it answers**, under the PREMISE `hr` that the single-query function
+echoes its argument (`single_query_echoes_request` derives it from the packaging of `run_single_query`; it is
+an assumption about `respond`, not a consequence of the batch model): a response is the answer to an expanded
+query `e` and carries `e`, or it is the error response characterised by `error_echoes_request` -/
 theorem response_carries_request (plugins : List Plugin) (respond : Json → Json)
     (hr : ∀ q, (respond q).get? "request" = some q) (q r : Json)
     (h : r ∈ answer plugins respond q) :
@@ -365,6 +405,16 @@ theorem response_carries_request (plugins : List Plugin) (respond : Json → Jso
     subst h
     obtain ⟨req, kind, rfl⟩ := error_response_shape plugins q r hp
     exact Or.inr ⟨rfl, req, kind, rfl, by simp [Json.get?, Json.lookup]⟩
+
+/-- … hence, with `respond` the packaged single-query function, without any premise on `respond` -/
+theorem response_carries_request_packaged (plugins : List Plugin) (search : Json → Option String)
+    (outPlugins : List (Json → Json → Except String Json)) (hk : ∀ p ∈ outPlugins, KeepsRequest p)
+    (q r : Json) (h : r ∈ answer plugins (singleQuery search outPlugins) q) :
+    ∃ req, r.get? "request" = some req := by
+  rcases response_carries_request plugins (singleQuery search outPlugins)
+      (single_query_echoes_request search outPlugins hk) q r h with ⟨_, e, _, _, _, h4⟩ | ⟨_, req, _, _, h4⟩
+  · exact ⟨e, h4⟩
+  · exact ⟨req, h4⟩
 
 -- non-vacuity: a number, an array of queries and the empty array are echoed, under any plugins
 example (respond : Json → Json) : answer [.gridSearch] respond (.arr [])
@@ -533,7 +583,10 @@ theorem sibling_responses_lost_counterexample (respond : Json → Json) :
 
 /-! ## worker threads -/
 
-/-- **Schedule independence.**  Workers are an arbitrary interleaving of atomic steps "run the next query of
+/-- (By construction of the model: `respond` is a pure function and a step touches one worker only, so this
+is a statement about the bookkeeping — done ++ map respond todo is constant per worker — not about real
+threads; that the real single-query function is pure rests on Rust's aliasing rules and on `cache_transparent`.)
+**Schedule independence.**  Workers are an arbitrary interleaving of atomic steps "run the next query of
 my bin".  Whatever the schedule — any order, any unfairness, steps of idle or unknown workers — once every bin
 is drained the collected responses are exactly those of running the bins one after the other. -/
 theorem sched_independent (respond : Json → Json) (bins : List (List Json)) (sched : Sched)
@@ -576,7 +629,10 @@ example : collected (exec (fun q => .arr [q]) [1, 0, 1, 0, 7, 0] (initWorkers [[
 
 /-! ## shared mutable state: the prediction cache -/
 
-/-- **A transparent cache changes nothing.**  If, on every state reachable under an invariant `I`, the
+/-- (The hypothesis `h` IS transparency, step by step; the theorem lifts it from one step to every schedule.  It
+is discharged only for the modelled rounded cache, `rounded_cache_transparent`, under the no-collision condition;
+for the real `PredictionModelRecord` it is C08's business.)
+**A transparent cache changes nothing.**  If, on every state reachable under an invariant `I`, the
 stateful single-query function answers what the pure `respond` answers, then under every schedule the workers
 end up exactly as with `respond` — the theorems above apply unchanged. -/
 theorem cache_transparent {σ : Type} (respondS : RespondS σ) (respond : Json → Json) (I : σ → Prop)
